@@ -34,7 +34,7 @@ const (
 
 func (c03) Plan(tier string) fw.Plan {
 	p := fw.Plan{
-		Batches: 16, Cases: 4112 + 600, TimeoutSec: 900, Level: "exploration", Exhaustive: false,
+		Batches: 16, Cases: 4112 + 2400, TimeoutSec: 900, Level: "exploration", Exhaustive: false,
 		Rule:        "part 1 (exhaustive sub-space): every byte string of length 0–2 (quick) / 0–3 (thorough) is decoded in strict mode into basicnode and into a harness-owned recording assembler, and in relaxed mode; part 2: for generated values, every single-bit flip, every truncation and 8 one-byte extensions of the canonical encoding (≤64 bytes; sampled beyond), random multi-point mutations, and structure-aware re-encodings with one rule broken (19 mutation kinds: longer heads, tags in front of each item kind incl. map keys, indefinite forms, f16/f32, NaN/Inf, simple values, duplicate keys near/far, swapped keys, out-of-range negatives, bad multibase prefix, damaged CID, junk after CID, tag 42 on text, non-string keys, count ±1, trailing item, double tag). Oracle: independent strict reference decoder; accept/reject and decoded value must agree. Distinct = distinct input strings (exhaustive part, by construction) + distinct base values (hash); non-trivial = reference decoder got past the first head.",
 		Assumptions: []string{"CID syntax after the 0x00 prefix is delegated to go-cid (cid.Cast)", "UTF-8 validity of text strings is not part of the property", "resource limits (default allocation budget, depth 1024) are configuration; inputs stay far below them"},
 		MinEvents:   []string{"decodes_strict", "decodes_relaxed", "decodes_recorder", "ref_accept", "ref_reject", "exhaustive_inputs", "struct_mutations_hit"},
